@@ -58,7 +58,7 @@ BOUNDS = {
                 "spaces (adds (2,3) inferred, (2,2,2)): <=3 complete, 4 subscripts x 9 value words (<=6 cells); sprand: "
                 "shapes order<=4,size<=4,cells<=16 x seeds 0-31 + (4,4,4),(2,3,4) at 7 fill levels; script: adds (4,),"
                 "(2,3),(2,2,2),(3,3); first-attempt words complete while cells^k <= 50000 (else the first d draws); "
-                "2 deviations while the estimate <= 60000 scripts, else 1",
+                "2 deviations while the estimate <= 35000 scripts, else 1",
 }
 CHUNK = 2
 
@@ -400,7 +400,7 @@ def gen_cases(tier, seed):
         yield {"check": "sprand", "shape": [4, 4, 4], "seeds": 4, "vseed": seed, "ks": [0, 1, 8, 32, 48, 63, 64]}
         yield {"check": "sprand", "shape": [2, 3, 4], "seeds": 8, "vseed": seed, "ks": [0, 1, 5, 12, 18, 23, 24]}
     # random sparse generators, scripted (before the many small aggregator cases: better load balance)
-    budget = 60000 if thorough else 8000
+    budget = 35000 if thorough else 8000
     wordcap = 50000 if thorough else 4096
     for s in _script_shapes(tier):
         cells = prod(s)
@@ -683,7 +683,6 @@ def _run_diag(case, ctx):
     p = Probe(ctx, case)
     eforms = [("array", lambda: np.array(el, dtype=float)), ("list", lambda: list(el)),
               ("column", lambda: np.array(el, dtype=float).reshape(-1, 1))]
-    res = {}
     for ename, mk in eforms:
         for order in ("F", "C"):
             if ename != "array" and order == "C":
@@ -693,15 +692,14 @@ def _run_diag(case, ctx):
                 ok, T = p.call("tendiag", lambda: ttb.tendiag(mk(), order=order), v)
             else:
                 ok, T = p.call("tendiag", lambda: ttb.tendiag(mk(), shape, order=order), v)
-            if ok and _check_dense(p, "tendiag", T, A, v):
-                res["dense"] = T
+            if ok:
+                _check_dense(p, "tendiag", T, A, v)
         v = ename
         if shape is None:
             ok, S = p.call("sptendiag", lambda: ttb.sptendiag(mk()), v)
         else:
             ok, S = p.call("sptendiag", lambda: ttb.sptendiag(mk(), shape), v)
         if ok and _check_sparse(p, "sptendiag", S, A, v):
-            res["sparse"] = S
             ctx.outcome([S.subs, S.vals, list(S.shape)])
 
 
@@ -766,7 +764,7 @@ def _run_eye(case, ctx):
         return
     if size >= 2:
         ctx.nontriv()
-    want = _eye_ref_fast(m, size)
+    want = _eye_ref(m, size) if m <= 4 else _eye_ref_fast(m, size)
     for order in ("F", "C"):
         ok, T = p.call("teneye", lambda: ttb.teneye(m, size, order=order), order)
         if not ok:
@@ -1026,7 +1024,7 @@ def _run_sprand(case, ctx):
                             ctx.flag("sprand:more_than_half_full")
 
 
-def _run_script_once(ctx, base, policy, prefix, report=True):
+def _run_script_once(ctx, base, policy, prefix):
     """One execution under the scripted source.  Returns (word, sig, failed)."""
     shape = tuple(base["shape"])
     k, via, vseed = base["k"], base["via"], base.get("vseed", 0)
